@@ -313,4 +313,39 @@ def check_string(ctx, config, rule):
             I, r = k.run(b)
             it = [e for e in own(r) if (e.callee or '').endswith('::' + name) and e.args and e.args[0] == ('addr', fld(SELF, 'collections::string::Drain.iter'))]
             k.check('string::Drain::' + name, 'forwards to the Chars iterator of the drained range', len(it) == 1 and len(own(r)) == 1 and r.ret == it[0].ret, '', b.get('span'))
-    ctx.floor(rule, k.n, 17, 'helper / accessor / iterator-glue clauses for String')
+    VREF = ('addr', VEC)
+    for name, callee, extra in (('clear', "Vec::<'bump, T>::clear", []), ('reserve', "Vec::<'bump, T>::reserve", [P2]), ('reserve_exact', "Vec::<'bump, T>::reserve_exact", [P2]),
+                                ('shrink_to_fit', "Vec::<'bump, T>::shrink_to_fit", [])):
+        b = method(db, 'string::String', name)
+        if b is None:
+            ctx.anchor_missing(rule, 'String::' + name)
+            continue
+        I, r = k.run(b)
+        cs = [e for e in own(r) if (e.callee or '').endswith(callee)]
+        k.check('String::' + name, 'forwards to the byte vector', len(cs) == 1 and cs[0].args == [VREF] + extra and len(own(r)) == 1, '', b.get('span'))
+    b = method(db, 'string::String', 'drain')
+    if b:
+        I, r = k.run(b)
+        ix = [e for e in own(r) if (e.callee or '').endswith('::index') and len(e.args) == 2 and e.args[1][0] == 'agg' and e.args[1][1].endswith('Range')]
+        ch = [e for e in own(r) if (e.callee or '').endswith('::chars')]
+        ret = r.ret
+        okv = ret is not None and ret[0] == 'agg' and field_of(ret, 'string') == SELF and len(ix) == 1 and field_of(ix[0].args[1], 'start') == field_of(ret, 'start') and field_of(ix[0].args[1], 'end') == field_of(ret, 'end') \
+            and len(ch) == 1 and ch[0].args[0] == ix[0].ret and field_of(ret, 'iter') == ch[0].ret
+        k.check('String::drain', 'Drain { string, start, end, iter: self[start..end].chars() } (the slicing is the boundary / range check)', okv, '', b.get('span'))
+    b = method(db, 'string::Drain', 'drop', 'Drop')
+    if b:
+        I, r = k.run(b)
+        D = 'collections::string::Drain'
+        st, en = ld(SELF, D + '.start'), ld(SELF, D + '.end')
+        dr = [e for e in own(r) if (e.callee or '').endswith("Vec::<'bump, T>::drain")]
+        okv = len(dr) == 1 and dr[0].args[1][0] == 'agg' and field_of(dr[0].args[1], 'start') == st and field_of(dr[0].args[1], 'end') == en and ('le', st, en) in dr[0].state.facts \
+            and any(f[0] == 'le' and f[1] == en for f in dr[0].state.facts)
+        k.check('string::Drain::drop', 'removes exactly bytes start..end from the vector, and only if start <= end <= len', okv, '', b.get('span'))
+    b = method(db, 'string::String', 'replace_range')
+    if b:
+        I, r = k.run(b)
+        sp = [e for e in own(r) if (e.callee or '').endswith("Vec::<'bump, T>::splice")]
+        by = [e for e in own(r) if (e.callee or '').endswith('::bytes')]
+        okv = len(sp) == 1 and sp[0].args[0] == VREF and len(by) == 1 and by[0].args == [P3] and sp[0].args[2] == by[0].ret
+        k.check('String::replace_range', 'vec.splice(range, replace_with.bytes()), consumed on the spot', okv, '', b.get('span'))
+    ctx.floor(rule, k.n, 24, 'helper / accessor / iterator-glue clauses for String')
